@@ -1091,18 +1091,17 @@ impl Schedule {
                 || vehicle_type_of_provider_result.unwrap() != vehicle_type_of_receiver
             {
                 // vehicle types do not match, check if there are any service trip in the segment
-                if self
-                    .tour_of(provider)
-                    .unwrap()
-                    .sub_path(segment)
-                    .unwrap()
-                    .iter()
-                    .any(|n| {
-                        !self
-                            .network
-                            .compatible_with_vehicle_type(n, vehicle_type_of_receiver)
-                    })
-                {
+                // (if the segment cannot be located in the provider's tour, nothing can be said
+                // about its nodes: not compatible)
+                let path = match self.tour_of(provider).unwrap().sub_path(segment) {
+                    Ok(path) => path,
+                    Err(_) => return false,
+                };
+                if path.iter().any(|n| {
+                    !self
+                        .network
+                        .compatible_with_vehicle_type(n, vehicle_type_of_receiver)
+                }) {
                     return false;
                 }
             }
